@@ -85,7 +85,7 @@ pub fn judge_ring_index(ctx: &mut Ctx, layer: &'static Layer, depth: u8, r: u64,
   let nc = layer.center(h);
   match catch(|| cdshealpix::ring::center(ns as u32, r)) {
     Err(p) => ctx.violation("ring::center-panics-on-valid-index", mk(), p),
-    Ok(c) => { let d = dist(c, nc); ctx.worst_max("ring_center_vs_nested_center_rad", d); if d > 1e-14 { ctx.violation("ring::center-differs-from-nested-center-of-from_ring", mk(), format!("ring {:?} nested {:?} d={:e}", c, nc, d)); } }
+    Ok(c) => { let d = dist(c, nc); ctx.worst_max("ring_center_vs_nested_center_rad", d); if d > 1e-13 { ctx.violation("ring::center-differs-from-nested-center-of-from_ring", mk(), format!("ring {:?} nested {:?} d={:e}", c, nc, d)); } }
   }
   if !(nc.0 >= 0.0 && nc.0 < TWO_PI + 1e-15) { ctx.violation("centre-longitude-outside-[0,2pi)", mk(), format!("{:?}", nc)); }
   if with_next {
